@@ -58,6 +58,7 @@ class CallMixin:
                     if k not in o.frame.locals:
                         o.frame.locals[k] = v
                 o.alloc = st.old.alloc
+                o.old = st.old              # old(old(e)) == old(e): nested uses inside an old() stay in the pre-state
                 _, v = self.ev1(e.args[0], o)
                 yield st, v
                 return
@@ -176,7 +177,7 @@ class CallMixin:
             if isinstance(cont.t, TMap) and isinstance(cont.t.k, TOpaque) and cont.t.k.nm == "$empty":
                 cont = vals.empty_map(TMap(idx.t, val.t))
             if isinstance(cont.t, TMap):
-                st2, new = self.map_put(st2, cont, coerce(idx, cont.t.k), val)
+                st2, new = self.map_put(st2, cont, self.narrow(st2, idx, cont.t.k), val)
             elif isinstance(cont.t, TSeq):
                 i = coerce(idx, INT).z
                 n = cont.zs[0]
@@ -227,6 +228,9 @@ class CallMixin:
             v, ax = self.spec_eval_full(p.body, st2)
             for a_ in ax:
                 st = st.assume(a_)
+            if self.spec_cards:
+                st = st.fork()
+                st.ghost["$cards"] = self.spec_cards
             yield st, v
             return
         if name in REG.ufuns and self.spec:
@@ -489,6 +493,25 @@ class CallMixin:
             else:
                 raise EngineError("range with a step other than 1 / -1")
 
+    def bi_pow(self, st, args, kw, node):
+        a, b = self.as_value(args[0]), self.as_value(args[1])
+        if len(args) == 2 and isinstance(a.t, (TFloat, TInt)) and isinstance(b.t, (TFloat, TInt)):
+            self.note_assumed("pow(x, y): some number (value not modelled, assumed not to raise)")
+            yield st, fresh(FLOAT if isinstance(a.t, TFloat) or isinstance(b.t, TFloat) else INT, "pow")
+            return
+        raise EngineError("pow() on non-numbers / with a modulus")
+
+    def bi_reversed(self, st, args, kw, node):
+        a = args[0]
+        if isinstance(a, RangeVal):
+            # reversed(range(lo, hi)) visits hi-1, ..., lo ; reversed(range(lo, hi, -1)) visits hi+1, ..., lo
+            if a.step == 1:
+                yield st, RangeVal(a.hi - 1, a.lo - 1, -1)
+            else:
+                yield st, RangeVal(a.hi + 1, a.lo + 1, 1)
+            return
+        raise EngineError("reversed() of something other than a range")
+
     def bi_enumerate(self, st, args, kw, node):
         start = coerce(self.as_value(kw["start"]), INT).z if "start" in kw else (
             coerce(self.as_value(args[1]), INT).z if len(args) > 1 else z3.IntVal(0))
@@ -573,6 +596,13 @@ class CallMixin:
     def to_set(self, st, a):
         if isinstance(a, Bag):
             return self.bag_to_set(st, a)
+        if isinstance(a, RangeVal):
+            # set(range(lo, hi)) / set(range(lo, hi, -1)): an interval of integers
+            x = z3.Int(fresh_name("x"))
+            lo, hi = (v_.z if isinstance(v_, V) else v_ for v_ in (a.lo, a.hi))
+            body = z3.And(lo <= x, x < hi) if a.step == 1 else z3.And(hi < x, x <= lo)
+            st, arr = self.def_array(st, x, body, "rangeset")
+            return st, V(TSet(INT), [arr])
         a = self.as_value(a)
         if isinstance(a.t, TOpt):
             self.raise_(st, "TypeError", opt_isnone(a))
@@ -592,7 +622,8 @@ class CallMixin:
             r = fresh(TSet(a.t.elem), "setof")
             ax = z3.ForAll([x], r.zs[0][x] == z3.Exists([i], z3.And(0 <= i, i < a.zs[0], z3.Select(a.zs[1], i) == x)))
             ax2 = z3.ForAll([i], z3.Implies(z3.And(0 <= i, i < a.zs[0]), r.zs[0][z3.Select(a.zs[1], i)]))
-            return st.assume(z3.And(ax, ax2)), r
+            st, c = self.card(st.assume(z3.And(ax, ax2)), r)
+            return st.assume(c <= a.zs[0]), r             # A-CARD: |set(s)| <= len(s)
         raise EngineError(f"set() of {a.t}")
 
     def bi_list(self, st, args, kw, node):
